@@ -141,14 +141,16 @@ class C12(core.PropertyCheck):
                     # cross-file inheritance: the content comes from an entry of extracts-a.yaml (may be dangling);
                     # the heir may bring replacements of its own (some keys only the parent defines)
                     own = ""
-                    if rng.random() < 0.5:
-                        own = "replacement:\n" + "".join(f'  {k}: "{self.words(rng, 1)}"\n' for k in rng.sample(["user", "datadir", "port"], rng.randint(1, 2)))
+                    if rng.random() < 0.7:
+                        # overrides ONE of the two keys the parent's text uses; the other one keeps coming from the parent
+                        own = "replacement:\n" + f'  {rng.choice(["user", "datadir"])}: "{self.words(rng, 1)}"\n' + ('  port: "27017"\n' if rng.random() < 0.3 else "")
                     docs.append(f"ref: {r}\nsource:\n  file: extracts-a.yaml\n  ref: {rng.choice(['foo', 'bar', 'baz'])}\n{own}")
                     continue
                 if getattr(self, "_xfile", True) and rng.random() < 0.4:
                     # placeholders filled from the entry's own replacement table (and, in heirs, from the heir's)
                     body += " in {{datadir}} as {{user}}"
-                    rep_ = "replacement:\n" + "".join(f'  {k}: "{self.words(rng, 1)}"\n' for k in rng.sample(["user", "datadir", "port"], rng.randint(1, 3)))
+                    keys = ["user", "datadir"] if rng.random() < 0.8 else rng.sample(["user", "datadir", "port"], rng.randint(1, 3))
+                    rep_ = "replacement:\n" + "".join(f'  {k}: "{self.words(rng, 1)}"\n' for k in keys)
                     docs.append(f"ref: {r}\ncontent: |\n  {body}\n{rep_}")
                     continue
                 docs.append(f"ref: {r}\ncontent: |\n  {body}\n")
@@ -250,6 +252,10 @@ class C12(core.PropertyCheck):
             if dense and ops[-1]["op"] != "postprocess" and len(ops) < n:
                 ops.append({"op": "postprocess"})
         ops = ops[:8]
+        if "includes/extracts-b.yaml" in exists and "includes/extracts-a.yaml" in exists and self._xfile and rng.random() < 0.5:
+            # the parent of inheriting entries changes after everything was built once: heirs must be regenerated from the new parent
+            ops = ops[:5] + [{"op": "postprocess"}, {"op": "update", "path": "includes/extracts-a.yaml", "text": self.gen_text(rng, "includes/extracts-a.yaml", ctx), "via": "disk"},
+                             {"op": "postprocess"}]
         if rng.random() < 0.25:
             # bounce: a file other files look for goes away and comes back (whoever looked for it must be re-parsed both times)
             cands = sorted(p for p in exists if p != "index.txt" and (is_source(p) or mode == "disk"))
